@@ -371,7 +371,7 @@ func checkC10(c *Ctx) {
 						offs[256+rng.Int63n(t.L-255)] = true
 					}
 				}
-				modes := []string{"exit128", "kill"}
+				modes := []string{"exit128", "kill", "quiet7"}
 				if !quick(c) {
 					modes = append(modes, "term", "pipe", "stdinclose")
 					if t.class != "config-get" {
@@ -414,6 +414,13 @@ func checkC10(c *Ctx) {
 			}
 			wg.Wait()
 			all = append(all, results...)
+			if d := os.Getenv("VERIF_DUMP"); d != "" {
+				f, _ := os.OpenFile(d, os.O_APPEND|os.O_CREATE|os.O_WRONLY, 0o644)
+				for _, r := range results {
+					fmt.Fprintf(f, "%s exit=%d hit=%v stdout=%dB baseline=%v stderr=%q\n", r.ID, r.Exit, r.Hit, len(r.Stdout), r.Stdout == base.Stdout, tail(r.Stderr, 2))
+				}
+				f.Close()
+			}
 			var cs []map[string]interface{}
 			cs = append(cs, base.judgeCase(base.Stdout, plan))
 			for i := range results {
